@@ -454,6 +454,13 @@ class SymBytes:
         else:
             self.chunks = _norm([Chunk("lit", elems=list(elems or []))])
 
+    def __getattr__(self, name):
+        # a bytes / bytearray method that is not modelled: loud and UNDECIDED, never a crash of the checker and never a wrong answer
+        if name.startswith("__") and name.endswith("__"):
+            raise AttributeError(name)
+        from .core import Unsupported
+        raise Unsupported("bytes.%s is not modelled on symbolic byte strings" % name)
+
     @staticmethod
     def lit(bs):
         return SymBytes(list(bs))
